@@ -11,7 +11,11 @@ RULE = ("target strings by class (dotted IPv4, IPv4 CIDR /0../32 aligned and una
         "math/rand (risky ones in a child process); exclusion files (hosts, CIDRs, families of nested entries in narrow-first / wide-first / shuffled order "
         "sharing or not sharing first and last address, duplicates, host+net, adjacent siblings, covering blocks, comments, "
         "blanks, one refused line in a sixth of them) through the real parseExcludeFile + cidranger + filter stage, "
-        "membership asked for every address of a /20../32 and at first-1/first/last/last+1 of every entry; end to end: arp/icmp/tcp/udp/tcp fin/socks/elastic/docker with "
+        "membership asked for every address of a /20../32 and at first-1/first/last/last+1 of every entry; LONG exclusion files "
+        "(more than 4096 and more than 65536 bytes, hundreds to thousands of entries: host lists and block lists of one text "
+        "width, tables padded to one column width, free-form files of mixed line lengths, comments and blank lines in between) "
+        "through the real parseExcludeFile and then the real tcp/udp generator chain (address generator x port -> exclusion "
+        "filter) over a /19../21: exactly the addresses no listed entry covers are let through; end to end: arp/icmp/tcp/udp/tcp fin/socks/elastic/docker with "
         "IPv6, mapped and garbage targets in a network namespace with a wire log; exclusion FILES through the real option parsing "
         "of every packet command (arp, icmp, udp, tcp, tcp syn/fin/null/xmas, tcp --flags) and of socks/elastic/docker: valid "
         "entries plus one invalid / IPv6 / over-long line combined with -i, --srcmac, -r (exit 1, nothing on the wire) and the "
@@ -101,13 +105,72 @@ def v4num(ip):
     return None
 
 
+_COVER = {}
+
+
+def covering(lines, x):
+    """index of the first line whose entry covers address x, or None (by the meaning the lines have by construction)"""
+    ix = _COVER.get(id(lines))
+    if ix is None or ix[0] is not lines:
+        d = {}
+        for n, l in enumerate(lines):
+            if l["meaning"] == "net":
+                d.setdefault(l["prefix"], {}).setdefault(l["base"] >> (32 - l["prefix"]), n)
+        ix = (lines, sorted(d.items()))
+        if len(_COVER) > 64:
+            _COVER.clear()
+        _COVER[id(lines)] = ix
+    best = None
+    for p, bases in ix[1]:
+        n = bases.get(x >> (32 - p))
+        if n is not None and (best is None or n < best):
+            best = n
+    return best
+
+
 def covered(lines, x):
-    for l in lines:
-        if l["meaning"] == "net":
-            sh = 32 - l["prefix"]
-            if (x >> sh) == (l["base"] >> sh):
-                return True
-    return False
+    return covering(lines, x) is not None
+
+
+def judge_long_chain(o):
+    """long exclusion files: the real generator chain of the tcp/udp commands (address generator x port -> exclusion
+    filter) over the target net lets through exactly the addresses that no listed entry covers"""
+    if "chain" not in o and not o.get("bytes"):
+        return None
+    lines = o["lines"]
+    nent = sum(1 for l in lines if l["meaning"] == "net")
+    head = "exclusion file of %d bytes, %d lines, %d entries (%s), target %s/%d through the real generator -> exclusion filter chain" % (
+        o.get("bytes", 0), len(lines), nent, o["class"], dotted(o["net_base"]), o["net_k"])
+    if not o.get("chain_ok"):
+        return head + ": the chain does not finish"
+    cb = hb(o.get("chain"))
+    got = set(int.from_bytes(cb[i:i + 4], "big") for i in range(0, len(cb), 4))
+    size = 1 << (32 - o["net_k"])
+    probed_covered, lost, foreign = [], [], []
+    for x in sorted(got):
+        if not (o["net_base"] <= x < o["net_base"] + size):
+            foreign.append(x)
+            continue
+        n = covering(lines, x)
+        if n is not None:
+            probed_covered.append((x, n))
+    for i in range(size):
+        x = o["net_base"] + i
+        if x not in got and not covered(lines, x):
+            lost.append(x)
+    if probed_covered:
+        x, n = probed_covered[0]
+        return "%s: %s is covered by the entry %r (line %d of the file) but is probed; %d covered addresses are probed in all%s" % (
+            head, dotted(x), hb(lines[n]["raw"]).decode("latin1").strip(), n + 1, len(probed_covered),
+            ("; %d addresses that no entry covers are never probed (first: %s)" % (len(lost), dotted(lost[0]))) if lost else "")
+    if lost:
+        return "%s: %s is covered by no entry of the file but is never probed (exclusion removes %d addresses it does not cover)" % (
+            head, dotted(lost[0]), len(lost))
+    if foreign:
+        return "%s: %s outside the target is probed" % (head, dotted(foreign[0]))
+    if o.get("chain_other"):
+        return "%s: %d requests carry an error or no IPv4 address" % (head, o["chain_other"])
+    return None
 
 
 def dotted(x):
@@ -177,7 +240,13 @@ def spec_on_impl(o):
                 return "exclusion file with the entry %r is accepted" % hb(bad[0]["raw"]).decode("latin1")
             return None
         if not o["impl_ok"]:
+            if o.get("bytes"):
+                return "well-formed exclusion file of %d bytes / %d lines (%s) is refused: %s" % (
+                    o["bytes"], len(lines), o["class"], o.get("impl_err"))
             return "well-formed exclusion file is refused: %s" % o.get("impl_err")
+        why = judge_long_chain(o)
+        if why:
+            return why
         member = hb(o["member"])
         for i, m in enumerate(member):
             x = o["net_base"] + i
@@ -342,7 +411,8 @@ def sample_of(o):
         return {"kind": "ips", "class": o["class"], "ip": o["ip"], "mask": o["mask"], "seed": o["seed"],
                 "first": o["obs"]["addrs"][:32], "crashed": o["obs"]["crashed"], "err": o["obs"]["err"]}
     return {"kind": "excl", "class": o["class"], "lines": [hb(l["raw"]).decode("latin1") for l in o["lines"]][:6],
-            "net": "%s/%d" % (dotted(o["net_base"]), o["net_k"]), "accepted": o["impl_ok"]}
+            "net": "%s/%d" % (dotted(o["net_base"]), o["net_k"]), "accepted": o["impl_ok"],
+            **({"bytes": o["bytes"], "nlines": len(o["lines"]), "passed_chain": len(o.get("chain") or "") // 8} if o.get("bytes") else {})}
 
 
 def case_file(rows):
@@ -385,7 +455,7 @@ def report(ctx, o, why):
                "lines": [hb(l["raw"]).decode("latin1") for l in o["lines"]], "net": "%s/%d" % (dotted(o["net_base"]), o["net_k"])}
         key = "excl:seed=%d" % o["seed"]
         tag = "excl-%d" % o["seed"]
-    small = {k: v for k, v in o.items() if k not in ("member", "in", "out")}
+    small = {k: v for k, v in o.items() if k not in ("member", "in", "out", "chain", "extra" if o.get("bytes") else "")}
     small.setdefault("net_base", 0)
     small.setdefault("net_k", 0)
     path = ctx.write_replay(tag or "case", {"property": "C02", "what": why, "input": inp, "observed": small,
@@ -422,8 +492,8 @@ def run(ctx):
     rows = []
     if ctx.harness_build("c02"):
         args = ["-out", "cases.jsonl", "-seed", ctx.seed]
-        args += ["-n", 1600, "-nips", 120, "-nexcl", 60, "-full", 1024] if quick else \
-                ["-n", 100000, "-nips", 4000, "-nexcl", 2500, "-full", 4096]
+        args += ["-n", 1600, "-nips", 120, "-nexcl", 60, "-full", 1024, "-nlong", 8] if quick else \
+                ["-n", 100000, "-nips", 4000, "-nexcl", 2500, "-full", 4096, "-nlong", 96]
         ok, _ = ctx.harness_run("c02", args, timeout=3000)
         if ok:
             rows = ctx.read_jsonl(os.path.join(ctx.work, "cases.jsonl"))
@@ -432,6 +502,13 @@ def run(ctx):
         ctx.info.append("exclusion files: %d accepted, %d with nested entries, %d with a narrower entry listed before a wider one "
                         "with the same network address" % (len(ex), sum(1 for o in ex if nested_pairs(o)),
                                                            sum(1 for o in ex if narrow_before_wide(o))))
+    lg = [o for o in rows if o["kind"] == "excl" and o.get("bytes")]
+    if lg:
+        ctx.info.append("long exclusion files: %d (%d accepted), %d..%d bytes, %d..%d lines, %d longer than 65536 bytes; the real "
+                        "generator -> filter chain let %d addresses through in all" % (
+                            len(lg), sum(1 for o in lg if o["impl_ok"]), min(o["bytes"] for o in lg), max(o["bytes"] for o in lg),
+                            min(len(o["lines"]) for o in lg), max(len(o["lines"]) for o in lg),
+                            sum(1 for o in lg if o["bytes"] > 65536), sum(len(o.get("chain") or "") // 8 for o in lg)))
     per_class = {}
     for o in rows:
         ctx.count(o["kind"] + ":" + o["class"], key_of(o), nontrivial=nontrivial(o), sample=sample_of(o))
@@ -515,6 +592,8 @@ def run(ctx):
                                                               "volume": o.get("volume", 0), "cmd": o.get("cmd")},
                     "observed": small, "replay_cmd": "bin/check C02 --replay <this file>"})
                 ctx.findings.append({"key": "chain:%s:exclude" % o["class"], "what": why, "replay": path})
+    # failing inputs on which an address is wrongly probed / wrongly left out first, refusals after them
+    ctx.findings.sort(key=lambda f: 0 if (" but is probed" in f["what"] or " is never probed" in f["what"]) else 1)
     if per_class:
         ctx.info.append("failing inputs per class: %s" % json.dumps(per_class))
     if model_ok and chains and ctx.coq_model(["Spec/C01.vo"]):
@@ -582,23 +661,37 @@ def replay(ctx, path):
     else:
         # the stored file through the real parser and trie again; meanings of the lines as stored
         lines = r["observed"]["lines"]
-        text = "".join(hb(l["raw"]).decode("latin1") + "\n" for l in lines).encode("latin1").hex()
+        text = "".join(hb(l["raw"]).decode("latin1") + "\n" for l in lines).encode("latin1")
         base, k = r["observed"]["net_base"], r["observed"]["net_k"]
-        ctx.harness_run("c02", ["-out", "one.jsonl", "-replay", "excl:%s:%d:%d" % (text, base, k)], timeout=600)
+        if len(text) > 4096:
+            # long files go through a file (and through the real generator -> filter chain again)
+            tf = os.path.join(ctx.work, "replay-exclude.txt")
+            with open(tf, "wb") as f:
+                f.write(text)
+            text = "@" + tf
+        else:
+            text = text.hex()
+        ctx.harness_run("c02", ["-out", "one.jsonl", "-seed", i.get("seed", 1), "-replay", "excl:%s:%d:%d" % (text, base, k)], timeout=600)
         o = ctx.read_jsonl(os.path.join(ctx.work, "one.jsonl"))[0]
+        o["lines"] = lines
         bad = [l for l in lines if l["meaning"] == "bad"]
         why = None
         if bad:
             why = "exclusion file with a refused entry is accepted" if o["impl_ok"] else None
         elif not o["impl_ok"]:
             why = "well-formed exclusion file is refused: %s" % o.get("impl_err")
+        elif judge_long_chain(o):
+            why = judge_long_chain(o)
         else:
             for j, m in enumerate(hb(o["member"])):
                 want = 1 if covered(lines, base + j) else 0
                 if m != want:
                     why = "exclusion membership of %s is %d, the file says %d" % (dotted(base + j), m, want)
                     break
-        print("replay exclusion file %r on %s/%d: %s" % ([hb(l["raw"]).decode("latin1") for l in lines], dotted(base), k,
+        shown = [hb(l["raw"]).decode("latin1") for l in lines]
+        if len(shown) > 24:
+            shown = shown[:12] + ["... %d more lines ..." % (len(shown) - 24)] + shown[-12:]
+        print("replay exclusion file %r on %s/%d: %s" % (shown, dotted(base), k,
                                                           why or "property holds on this input"))
         return 1 if why else 0
     ok, _ = ctx.harness_run("c02", ["-out", "one.jsonl", "-seed", i.get("seed", 1), "-replay", arg], timeout=600)
